@@ -708,6 +708,17 @@ fn easings(ctx: &mut Ctx) {
 		es.push(Easing::OutPowf(p));
 		es.push(Easing::InOutPowf(p));
 	}
+	// steep and flat exponents: any finite positive power is valid (beyond 1024 a power of 2 no longer fits an f64)
+	for p in [16, 31, 64, 1023, 1024, 1025, 1026, 5000, i32::MAX] {
+		es.push(Easing::InPowi(p));
+		es.push(Easing::OutPowi(p));
+		es.push(Easing::InOutPowi(p));
+	}
+	for p in [1e-3, 100.0, 1023.5, 1024.0, 1025.0, 1e6, 1e300] {
+		es.push(Easing::InPowf(p));
+		es.push(Easing::OutPowf(p));
+		es.push(Easing::InOutPowf(p));
+	}
 	let mut xs: Vec<f64> = vec![];
 	for i in 0..=4096 {
 		let x = i as f64 / 4096.0;
